@@ -80,4 +80,11 @@ PLAN = {
         'assumptions': ['Reader.update (the refill loop, decoding, chunking) is used through its abstract contract here; chunk-size independence of update itself is NOT discharged yet'],
         'explanation': 'everything downstream of the Reader sees only peek/prefix/forward/get_mark whose contracts are stated over the ghost text and position and never mention buffer, pointer or chunk sizes; a BOM does not advance the column; CR LF is one break (one character of look-ahead is always buffered)',
     },
+    'C08': {
+        'fronts': ['pyvc.fronts.regexes:run'], 'bounded': [],
+        'assumptions': ['the languages of str(int), repr(float) after the .0e fix-up and date/datetime.isoformat are ASSUMED (written as regular expressions in pyvc/fronts/regexes.py)',
+                        'the value computed by the converters (int(), float(), datetime) is not under contract yet; utc offsets with seconds are outside the dump-side language (finding F18)',
+                        "re._parser.parse is trusted to give Python's reading of a pattern; z3's regex solver decides the language queries"],
+        'explanation': 'every implicit-resolver pattern, translated from its real source: first-character index complete, language equal to the YAML 1.1 language (documented deviations spelt out), pairwise disjoint; what the representer writes for int/float/bool/null/date/datetime lies in the language of its own type; plain is chosen only when the tag is implicit (choose_scalar_style / process_tag contracts)',
+    },
 }
